@@ -114,6 +114,13 @@ func main() {
 			set, in = streams.C14(*seed, *n)
 		case "c15":
 			set, in = streams.C15(*seed, *n)
+		case "c18hist":
+			set, in = streams.C18Hist(*seed+2000, *n)
+			set.Stream = "c18hist"
+		case "c07hist":
+			// fault handling must not depend on what was served before: the C15 histories, filed under C07
+			set, in = streams.C15(*seed+1000, *n)
+			set.Stream = "c07hist"
 		case "c15src":
 			set, in = streams.Src(*seed, *n, "pf_src15")
 			set.Stream = "c15src"
